@@ -50,7 +50,16 @@ fn bit_hook(a_li: &mut Vec<Scalar>, a_ri: &mut Vec<Scalar>, values: &[u64], prom
         h.calls.push(call);
         return;
     }
+    let mut symbolic_members = 0usize;
     for (j, v) in values.iter().enumerate() {
+        // the bits of a commitment are made symbolic only if its value is a registered variable: the tie v = p + sum b 2^i needs v
+        // as a variable (where the bit length leaves no room for a distinct stand-in the value, and therefore its bits, stay concrete)
+        let vnode = Scalar::from(*v).node();
+        let is_var = with(|c| matches!(c.op(vnode), symcore::Op::Var(_)));
+        if !is_var {
+            continue;
+        }
+        symbolic_members += 1;
         let o = v.wrapping_sub(promises[j].unwrap_or(0));
         let mut row = Vec::new();
         for i in 0..bits {
@@ -63,14 +72,14 @@ fn bit_hook(a_li: &mut Vec<Scalar>, a_ri: &mut Vec<Scalar>, values: &[u64], prom
             h.side.push(json!({"kind":"bool","node":node}));
             row.push(node);
         }
-        // definition of the value: v_j = p_j + sum beta * 2^i   (v and p are variables or constants)
-        let vnode = Scalar::from(*v).node();
+        // definition of the value: v_j = p_j + sum beta * 2^i   (p is a variable or a constant)
         let pnode = match promises[j] {
             Some(p) => Scalar::from(p).node(),
             None => 0,
         };
         h.side.push(json!({"kind":"value_def","member":member,"j":j,"v":vnode,"p":pnode,"bits":row}));
     }
+    call["symbolic_members"] = json!(symbolic_members);
     call["replaced"] = json!(true);
     h.calls.push(call);
 }
